@@ -127,6 +127,67 @@ def len_gt(p, bb, coll, k):
     return bool(allowed) and all(any(not f(n) for f in allowed) for n in range(0, k + 1))
 
 
+def index_below_len(p, bb, ix, coll, strict=True):
+    """ix < len(coll) (strict) / ix <= len(coll) established by a comparison on the path before the site"""
+    i0 = strip_refs(ix)
+    c0 = _lib.coll(coll)
+    for c in conds_before(p, bb):
+        t = c.term
+        if not (isinstance(t, tuple) and t and t[0] == "binop" and t[1] in ("Lt", "Le", "Gt", "Ge") and c.fact[0] == "eq" and isinstance(c.fact[1], bool)):
+            continue
+        op, l, r = t[1], strip_refs(t[2]), strip_refs(t[3])
+        if not c.fact[1]:
+            op = {"Lt": "Ge", "Le": "Gt", "Gt": "Le", "Ge": "Lt"}[op]
+        if op in ("Gt", "Ge"):
+            l, r = r, l
+            op = {"Gt": "Lt", "Ge": "Le"}[op]
+        if l == i0 and length_of(r) is not None and length_of(r) == c0 and (op == "Lt" or not strict):
+            return True
+    return False
+
+
+def cursor_bounded(ctx, body, p, t, coll):
+    """t is a loop-carried cursor that can never exceed len(coll) at its loop header: it starts at most there (established before the loop), and it
+    is only ever incremented by one on iterations that first checked cursor < len(coll)"""
+    t0 = strip_refs(t)
+    if not (isinstance(t0, tuple) and t0 and t0[0] == "havoc" and len(t0) > 3):
+        return False
+    l, h, init = t0[1], t0[2], t0[3]
+    c0 = _lib.coll(coll)
+    paths = ctx.paths(body.key) or []
+    backs = [q for q in paths if q.end[0] == "back" and q.end[1] == h]
+    if not backs:
+        return False
+    for q in backs:
+        v = q.env.get(l)
+        if isinstance(v, tuple) and v[0] == "havoc" and v[1] == l:
+            continue            # unchanged on this way round
+        step = isinstance(v, tuple) and v[0] == "binop" and v[1] == "Add" and isinstance(v[2], tuple) and v[2][0] == "havoc" and v[2][1] == l and const_int(v[3]) == 1
+        guard = any(isinstance(c.term, tuple) and c.term[0] == "binop" and c.term[1] in ("Lt", "Ne") and isinstance(c.term[2], tuple) and c.term[2][0] == "havoc" and c.term[2][1] == l
+                    and length_of(c.term[3]) is not None and length_of(c.term[3]) == c0 and c.fact == ("eq", True) for c in q.conds())
+        # Ne alone is a bound only together with the invariant itself; Lt is
+        guard_lt = any(isinstance(c.term, tuple) and c.term[0] == "binop" and c.term[1] == "Lt" and isinstance(c.term[2], tuple) and c.term[2][0] == "havoc" and c.term[2][1] == l
+                       and length_of(c.term[3]) is not None and length_of(c.term[3]) == c0 and c.fact == ("eq", True) for c in q.conds())
+        if not (step and guard and guard_lt):
+            return False
+    # the initial value: below the length by a comparison made before the loop (i0 < len, i0 + k < len, i0 + 1 >= len not taken ..), or 0
+    if const_int(init) == 0:
+        return True
+    for c in p.conds():
+        t_ = c.term
+        if isinstance(t_, tuple) and t_ and t_[0] == "binop" and t_[1] in ("Lt", "Le", "Ge", "Gt") and c.fact[0] == "eq" and isinstance(c.fact[1], bool):
+            op, a, b = t_[1], strip_refs(t_[2]), strip_refs(t_[3])
+            if not c.fact[1]:
+                op = {"Lt": "Ge", "Le": "Gt", "Gt": "Le", "Ge": "Lt"}[op]
+            if op in ("Gt", "Ge"):
+                a, b = b, a
+                op = {"Gt": "Lt", "Ge": "Le"}[op]
+            base = a[2] if isinstance(a, tuple) and a[0] == "binop" and a[1] == "Add" and (const_int(a[3]) or 0) >= 0 else a
+            if strip_refs(base) == strip_refs(init) and length_of(b) is not None and length_of(b) == c0:
+                return True
+    return False
+
+
 def range_item(t):
     """(lo, hi) if t is the item yielded by iterating a Range{lo,hi}"""
     t = strip_refs(t)
@@ -219,6 +280,8 @@ def discharge(ctx, body, p, ev, kind):
         k = const_int(ix)
         if k is not None and len_gt(p, bb, coll, k):
             return "G1-length-fixed"
+        if index_below_len(p, bb, ix, coll):
+            return "G1-index-checked-below-length"
         ixs = strip_refs(ix)
         if isinstance(ixs, tuple) and ixs[0] == "binop" and ixs[1] == "Sub" and const_int(ixs[3]) == 1 and is_call(strip_refs(ixs[2]), "::len") \
                 and strip_refs(call_args(strip_refs(ixs[2]))[0]) == strip_refs(coll) and len_gt(p, bb, coll, 0):
@@ -348,6 +411,9 @@ def discharge(ctx, body, p, ev, kind):
                 # bytes[a..b] with a <= b established on the path and b a position of the collection (its length, or the enumerate() index)
                 if (hi_ == LEN or enum_index(hi_) or (length_of(hi_) is not None and length_of(hi_) == c0)) and less(lo_, hi_):
                     return "G6-ordered-range-below-length"
+                # bytes[cursor..] where the cursor is kept <= len by its loop (only `+= 1` after `cursor < len`)
+                if (hi_ == LEN or (length_of(hi_) is not None and length_of(hi_) == c0)) and cursor_bounded(ctx, body, p, lo_, ev.args[0]):
+                    return "G4-cursor-bounded-by-its-loop-guard"
         if last == "index" and "[T]" in nm:
             coll, rg = ev.args[0], ev.args[1]
             a = agg_variant(rg)
@@ -801,6 +867,22 @@ def termination(ctx):
                         break
             if cand:
                 drv = body.blocks[cand[0]]["term"]["func"]["full"]
+            if drv is None and not cand0:
+                # an index-driven scan: every way round the loop first checked cursor < len(..) and then moved the cursor forward by a positive constant
+                # (nothing else writes it): at most len iterations
+                backs_ = [p for p in ctx.paths(key) if p.end[0] == "back" and p.end[1] == h]
+                cur_ok = None
+                for p in backs_:
+                    g = [c for c in p.conds() if isinstance(c.term, tuple) and c.term[0] == "binop" and c.term[1] == "Lt" and isinstance(c.term[2], tuple) and c.term[2][0] == "havoc"
+                         and c.term[2][2] == h and length_of(c.term[3]) is not None and c.fact == ("eq", True)]
+                    ls = {c.term[2][1] for c in g}
+                    adv = {l for l in ls if isinstance(p.env.get(l), tuple) and p.env.get(l)[0] == "binop" and p.env.get(l)[1] == "Add" and isinstance(p.env.get(l)[2], tuple)
+                           and p.env.get(l)[2][0] == "havoc" and p.env.get(l)[2][1] == l and (const_int(p.env.get(l)[3]) or 0) > 0}
+                    cur_ok = adv if cur_ok is None else (cur_ok & adv)
+                if backs_ and cur_ok:
+                    ctx.ok("TERM", key, "loop[bounded-cursor]%s" % ("" if list(sorted(body.loops)).index(h) == 0 else "#%d" % (sorted(body.loops).index(h) + 1)),
+                           "every iteration checks cursor < len and advances the cursor", body.span_of(h))
+                    continue
             if drv is None:
                 # a read loop: every iteration calls read_until / read_line / read on a reader and goes round again only if that consumed at
                 # least one byte (n == 0 leaves the loop) -- the same progress argument as iterating io::Split / io::Lines over the reader
